@@ -620,7 +620,7 @@ theorem estimate_withName (reg : List String) (lib : Lib) (nm : Option (List Nat
 
 theorem pipeline_patternMatch_iff (reg : List String) (S : Decompose.SchemeDef) (lib : Lib) (m : Mol) (set : String) :
     pipeline reg S lib m set = .error .patternMatch ↔ Decompose.decompose S m = .error .patternMatch := by
-  unfold pipeline getDescriptors
+  unfold pipeline getDescriptors estimateOf
   cases hd : Decompose.decompose S m with
   | error e => cases e; simp
   | ok c =>
@@ -630,7 +630,7 @@ theorem pipeline_patternMatch_iff (reg : List String) (S : Decompose.SchemeDef) 
 theorem pipeline_ok_iff (reg : List String) (S : Decompose.SchemeDef) (lib : Lib) (m : Mol) (set : String) (e : Estimator) :
     pipeline reg S lib m set = .ok e ↔
       ∃ c e0, Decompose.decompose S m = .ok c ∧ estimate reg lib c set = .ok e0 ∧ e = withName (some (atomsOf m)) e0 := by
-  unfold pipeline getDescriptors
+  unfold pipeline getDescriptors estimateOf
   cases hd : Decompose.decompose S m with
   | error err => cases err; simp
   | ok c =>
@@ -646,7 +646,7 @@ theorem pipeline_esterr_iff (reg : List String) (S : Decompose.SchemeDef) (lib :
     (err : EstErr String) :
     pipeline reg S lib m set = .error (.estimate err) ↔
       ∃ c, Decompose.decompose S m = .ok c ∧ estimate reg lib c set = .error err := by
-  unfold pipeline getDescriptors
+  unfold pipeline getDescriptors estimateOf
   cases hd : Decompose.decompose S m with
   | error e => cases e; simp
   | ok c =>
